@@ -32,7 +32,9 @@ CliOK(sc, ob) ==
           THEN ob.stdout_sha = ob.lib_nl_sha /\ ob.file_exists = 0           \* the document plus a newline
           ELSE ob.file_exists = 1 /\ ob.file_sha = ob.lib_sha /\ ob.stdout_len = 0   \* verbatim
      ELSE /\ ob.stderr_len > 0            \* a diagnostic
-          /\ ob.stdout_len = 0 /\ ob.file_exists = 0            \* no partial output
+          /\ ob.stdout_len = 0                                   \* no partial output:
+          /\ ob.file_sha = ob.pre_sha                            \* the output file is absent, or still what it was before
+          /\ (ob.file_exists = 1 <=> ob.pre_sha # "")
 \* batch mode: one document per matching file, exit status 0 iff the directory could be converted
 BuildOK(b, ob) ==
   /\ ob.exit = (IF b.missing_dir = 1 THEN 1 ELSE 0)
